@@ -61,6 +61,7 @@ type Task struct {
 	Arg     interface{}
 	goid    int64
 	wake    chan struct{}
+	doneCh  chan struct{} // closed at exit, visibly to the race detector (Join = real happens-before)
 	state   int32
 	op      OpKind
 	obj     int
@@ -421,7 +422,7 @@ func (s *Sim) Invariant(f func() error) { s.invariants = append(s.invariants, f)
 
 //go:norace
 func (s *Sim) newTask(parent *Task, entry string, arg interface{}) *Task {
-	t := &Task{sim: s, Entry: entry, Arg: arg, wake: make(chan struct{}, 1)}
+	t := &Task{sim: s, Entry: entry, Arg: arg, wake: make(chan struct{}, 1), doneCh: make(chan struct{})}
 	s.lock()
 	if parent == nil {
 		t.Name = "r"
@@ -447,6 +448,7 @@ func (s *Sim) startTask(t *Task, fn func()) {
 				// format outside the hidden region (fmt's printer pool is real sync)
 				s.Fail("panic", "task %s (%s) panicked: %v\n%s", t.Name, t.Entry, r, trimStack(debug.Stack()))
 			}
+			close(t.doneCh)
 			raceDisable()
 			regDelete(t)
 			s.lock()
@@ -483,6 +485,29 @@ func (s *Sim) signal() {
 	default:
 	}
 }
+
+// Draw / Chance draw from the run's tape under the bookkeeping lock (for sim
+// objects used by several tasks).
+//
+//go:norace
+func (s *Sim) Draw(n int, label string) int {
+	s.lock()
+	defer s.unlock()
+	return s.Tape.Draw(n, label)
+}
+
+//go:norace
+func (s *Sim) Chance(num, den int, label string) bool {
+	s.lock()
+	defer s.unlock()
+	return s.Tape.Chance(num, den, label)
+}
+
+// Kick makes the scheduler re-evaluate enabledness (used by simnet when bytes,
+// closes or deadlines arrive).
+//
+//go:norace
+func (s *Sim) Kick() { s.signal() }
 
 // Go starts fn as a new task of the current simulation (or as a plain
 // goroutine when the caller is not part of one).
@@ -634,6 +659,15 @@ func Join(ts ...*Task) {
 		}
 		return true
 	}, nil)
+	if t.killed.Load() {
+		return
+	}
+	// like WaitGroup.Wait: everything the joined tasks did happens-before the return
+	for _, x := range ts {
+		if x != nil && x.doneCh != nil {
+			<-x.doneCh
+		}
+	}
 }
 
 // WaitUntil parks until pred holds (evaluated at quiescence).
